@@ -89,6 +89,8 @@ def inventory(P, crates):
                     elif full in MAY_PANIC_CALLS or full.split("::<")[0] in MAY_PANIC_CALLS:
                         if full.startswith("syn::__private::parse") or full == "quote::__private::mk_ident":
                             t = N.term(n)
+                            while t[0] in ("early", "seq"):
+                                t = t[2]            # guard clauses / effects that floated out of the operands are not part of the operand
                             op = show(t)[:300]
                         else:
                             op = ",".join(show(N.term(a))[:120] for a in n["args"])
